@@ -19,6 +19,8 @@ Guard(e) ==
     [] e.a = "Text" -> /\ e.str = LevelText(e.lvl) /\ e.mt = LevelText(e.lvl)
                        /\ ~e.perr /\ e.parsed = e.lvl /\ e.um = e.lvl
     [] e.a = "Nil" -> e.calls = 0 /\ e.panic = "" /\ e.neutral /\ e.after    \* after: the next event built from fresh Arr() / Dict() is what it always was
+    \* an event discarded after it was created (by its owner or by an earlier hook): not written, not Enabled(), Func does not run
+    [] e.a = "Disc" -> e.calls = 0 /\ e.written = 0 /\ ~e.enabled
     [] e.a = "Fatal" -> e.exit = 1 /\ e.nwrites = (IF e.filtered THEN 0 ELSE 1) /\ e.closed
     [] e.a = "Reset" -> TRUE
     [] OTHER -> FALSE
